@@ -13,20 +13,30 @@ func UnmarshalSelectionSet(b []byte) (SelectionSet, error) {
 
 	result := make([]Selection, 0)
 	for _, item := range tmp {
-		var field Field
-		if err := json.Unmarshal(item, &field); err == nil {
-			result = append(result, &field)
-			continue
-		}
-		var fragmentSpread FragmentSpread
-		if err := json.Unmarshal(item, &fragmentSpread); err == nil {
-			result = append(result, &fragmentSpread)
-			continue
-		}
-		var inlineFragment InlineFragment
-		if err := json.Unmarshal(item, &inlineFragment); err == nil {
-			result = append(result, &inlineFragment)
-			continue
+		// The three kinds of selection are told apart by the keys their encodings always carry:
+		// a Field has an Alias, an InlineFragment a TypeCondition, a FragmentSpread neither.
+		// (Field's decoder accepts any object, so trying the decoders in turn would read every
+		// selection back as a Field.)
+		var keys map[string]json.RawMessage
+		_ = json.Unmarshal(item, &keys)
+		_, isField := keys["Alias"]
+		_, isInlineFragment := keys["TypeCondition"]
+		switch {
+		case isField || keys == nil:
+			var field Field
+			if err := json.Unmarshal(item, &field); err == nil {
+				result = append(result, &field)
+			}
+		case isInlineFragment:
+			var inlineFragment InlineFragment
+			if err := json.Unmarshal(item, &inlineFragment); err == nil {
+				result = append(result, &inlineFragment)
+			}
+		default:
+			var fragmentSpread FragmentSpread
+			if err := json.Unmarshal(item, &fragmentSpread); err == nil {
+				result = append(result, &fragmentSpread)
+			}
 		}
 	}
 
